@@ -23,7 +23,30 @@ PLAN = {"quick": {"budget_s": 40, "max_runs": 400000}, "thorough": {"budget_s": 
 for _c in ("S-state", "S-finished", "S-failed", "S-progress", "S-header", "S-exception", "S-fields"):
     CLASS2PROP[_c] = "C19"
 
-CIDS = ["0123456789abcdef", "fedcba9876543210"]
+BASE_URL = "http://wiki.example.org/w/"
+SIM_QSERVE = ("sim", 14311)
+from .kernel import HarnessError as kernel_HarnessError  # noqa: E402
+
+
+def _collections():
+    """Two metabooks and the collection ids nserve itself computes for them."""
+    import io
+    import sys
+    from mwlib.core import nserve
+    out = {}
+    saved = sys.stdout
+    sys.stdout = io.StringIO()
+    try:
+        for t in ("Alpha", "Beta"):
+            mb = '{"type": "Collection", "version": 1, "title": "%s", "items": [{"type": "Article", "title": "%s"}]}' % (t, t)
+            out[nserve.make_collection_id({"metabook": mb, "base_url": BASE_URL})] = mb
+    finally:
+        sys.stdout = saved
+    return out
+
+
+METABOOKS = _collections()
+CIDS = sorted(METABOOKS)
 WRITERS = ["rl", "odf", "xhtml"]
 FIXED_MSG = {"status": "data fetched. waiting for render process.."}
 
@@ -96,6 +119,7 @@ class C19Run(qsrun.QsRun):
     def __init__(self, *a, **kw):
         kw["model_cls"] = C19Model
         qsrun.QsRun.__init__(self, *a, **kw)
+        self._install_nserve()
         self.parked = {}  # pid -> (rpc, args, AsyncResult)
         self.calls = {}  # pid -> dict(kind, cid, writer, greenlet, out)
         self.npolls = 0
@@ -103,34 +127,71 @@ class C19Run(qsrun.QsRun):
         self.interleaved_polls = 0
 
     # ---- application calls ---------------------------------------------------
-    def _app_call(self, pid, kind, cid, writer):
+    def _app_call(self, pid, kind, cid, writer, mode="new"):
+        """The call goes through Application.dispatch, as a bottle request would: command
+        look-up, collection id computation / check, qserve selection, error wrapping."""
         from mwlib.core import nserve
-        from qs import rpcclient
 
         call = self.calls[pid]
+        if kind == "status":
+            params = {"command": "render_status", "collection_id": cid, "writer": writer}
+        elif mode == "new":
+            params = {"command": "render", "metabook": METABOOKS[cid], "writer": writer, "base_url": BASE_URL}
+        else:
+            params = {"command": "render", "collection_id": cid, "writer": writer, "base_url": BASE_URL}
+
+        class FakeRequest:
+            url = "http://render.example.org/"
+
+        class Params(dict):  # like bottle's FormsDict: a dict that also has a __dict__
+            pass
+
+        FakeRequest.params = Params(params)
 
         def run():
-            app = nserve.Application()
-            app.qserve = rpcclient.ServerProxy(rpc_client=InProcClient(self, pid))
+            self._creating_pid = pid  # dispatch builds its queue proxy before anything can block
             try:
-                if kind == "status":
-                    call["out"] = app.do_render_status(cid, {"writer": writer})
-                else:
-                    call["out"] = app.do_render(cid, {"metabook": "{}", "writer": writer,
-                                                      "base_url": "http://wiki.example.org/w/"}, is_new=True)
+                call["out"] = nserve.Application().dispatch(FakeRequest)
             except gevent.GreenletExit:
                 raise
-            except Exception as e:  # noqa: BLE001
-                call["out"] = {"exception": f"{type(e).__name__}: {e}"}
+            except BaseException as e:  # noqa: BLE001  (bottle.HTTPResponse is an exception, too)
+                call["out"] = {"exception": f"{type(e).__name__}: {getattr(e, 'body', e)}"}
             call["finished"] = True
 
         call["greenlet"] = gevent.spawn(run)
+
+    def _install_nserve(self):
+        from mwlib.core import nserve
+        from mwlib.utils import lrucache
+        from qs import rpcclient
+        self._saved_proxy = nserve.rpcclient
+        run = self
+
+        class _RpcClientModule:
+            """Stands in for the qs.rpcclient module inside nserve: ServerProxy(host, port) is
+            bound in-process to the simulated queue server."""
+
+            @staticmethod
+            def ServerProxy(host=None, port=None, rpc_client=None):
+                if (host, port) != SIM_QSERVE:
+                    raise kernel_HarnessError(f"nserve picked queue server {(host, port)!r}")
+                return rpcclient.ServerProxy(rpc_client=InProcClient(run, run._creating_pid))
+
+        nserve.rpcclient = _RpcClientModule
+        nserve.busy.clear()
+        nserve.busy[SIM_QSERVE] = False
+        nserve.collid2qserve = lrucache.LRUCache(4000)
+
+    def _uninstall_nserve(self):
+        from mwlib.core import nserve
+        nserve.rpcclient = self._saved_proxy
 
     def step_extra(self, st):
         sim, model = self.sim, self.model
         op = st[0]
         if op == "app":
-            _, pid, kind, cid, writer = st
+            _, pid, kind, cid, writer = st[:5]
+            mode = st[5] if len(st) > 5 else "new"
             if pid in self.calls:
                 return False
             sim.connect(pid)
@@ -138,7 +199,7 @@ class C19Run(qsrun.QsRun):
                                "checked": False, "rpcs": 0, "events_between": 0}
             if kind == "status":
                 model.polls[sim.cid(pid)] = (cid, writer)
-            self._app_call(pid, kind, cid, writer)
+            self._app_call(pid, kind, cid, writer, mode)
             self._inject(("app", kind))
             return True
         if op == "prpc":
@@ -318,7 +379,7 @@ class C19Run(qsrun.QsRun):
                     cid, writer = rng.choice(known)
                     if rng.random() < 0.25:  # a writer of the same collection that may not be rendered
                         writer = rng.choice(c["writers"])
-            return ["app", pid, kind, cid, writer]
+            return ["app", pid, kind, cid, writer, rng.choice(["new", "new", "old"])]
         return qsrun.QsRun.gen_step(self)
 
     def _known_pairs(self):
@@ -384,6 +445,7 @@ class C19Run(qsrun.QsRun):
         qsrun.QsRun.epilogue(self, probe=True, drain=True)
 
     def close(self):
+        self._uninstall_nserve()
         for c in self.calls.values():
             g = c.get("greenlet")
             if g is not None and not g.dead:
@@ -432,10 +494,16 @@ _orig_draw = qscommon.draw_run
 
 
 def worker(seed, widx, nworkers, plan, scratch):
+    import os
+    import sys
     qscommon.draw_run = draw_run
+    saved = sys.stdout
+    sys.stdout = open(os.devnull, "w")  # nserve prints (new-collection ..., errors)
     try:
         return qscommon.qs_worker(PROP, seed, widx, nworkers, plan, scratch, run_cls=C19Run)
     finally:
+        sys.stdout.close()
+        sys.stdout = saved
         qscommon.draw_run = _orig_draw
 
 
@@ -455,10 +523,11 @@ def evidence(stats, samples, plan, tier, seed, wall, nviol, known_hits, nworkers
     ev = qscommon.qs_evidence(PROP, "exploration", stats, samples, plan, tier, seed, wall, nviol, known_hits,
                               nworkers, RULE, {"expected_probes": EXPECTED_PROBES})
     comp = ev["coverage"]["components"] = copy.deepcopy(ev["coverage"]["components"])
-    comp["real"] += ["mwlib.core.nserve.Application.do_render / do_render_status / _process_and_return_finished_state",
+    comp["real"] += ["mwlib.core.nserve.Application.dispatch (command look-up, make_collection_id / check_collection_id, queue selection, "
+                     "error wrapping), do_render / do_render_status / _process_and_return_finished_state",
                      "mwlib.core.nserve.get_content_disposition(_values)", "qs.rpcclient.ServerProxy"]
     comp["stub"] += ["qs.rpcclient.RpcClient (InProcClient: same JSON framing, scheduler-released)",
-                     "bottle/HTTP dispatch (Application.dispatch is not run)"]
+                     "bottle (the request object is a stand-in with .params/.url; no WSGI)"]
     return ev
 
 
